@@ -1,11 +1,19 @@
 ------------------------------ MODULE XfrmIn ------------------------------
-(* Input side of the stream decompression wrapper (lib/xfrm/src/istream.c precache + codecs); see XfrmOut.tla *)
+(* Input side of the stream decompression wrapper (lib/xfrm/src/istream.c: precache, xfrm_get_buffered_data, and the      *)
+(* codecs' process_data); see XfrmOut.tla for the output side.                                                            *)
+(* The compressed file is a sequence of members; member m has Members[m] payload units (0 = an EMPTY member, e.g. the      *)
+(* output of `xz -c </dev/null`) and one trailer.  One step = one call of get_buffered_data by the consumer: if the buffer  *)
+(* is empty, precache runs its refill loop - decode until the buffer (Cap units) is full or the input is exhausted; the      *)
+(* end of a member does NOT end the loop - and the consumer takes what is buffered; an empty buffer after precache means     *)
+(* end of file to the consumer.  Input that ends inside a member is an error, a damaged unit is an error.                   *)
 EXTENDS Naturals, Sequences, TLC, Json
 Min(a, b) == IF a < b THEN a ELSE b
 RECURSIVE Sum(_)
 Sum(s) == IF s = <<>> THEN 0 ELSE Head(s) + Sum(Tail(s))
-CONSTANTS Members, EofMidMemberAccepted, DataErrorIgnored
-(* ------------------------------- input side ------------------------------- *)
+CONSTANTS Members, Cap,
+          EofMidMemberAccepted,    \* deviation (pinned tree): input that ends inside a member is a normal end of file
+          DataErrorIgnored,        \* deviation (pinned gzip wrapper): a damaged unit makes no progress and no error
+          RefillStopsAtMemberEnd   \* deviation: the refill loop hands out what it has once a member is complete
 (* units of the compressed file: <<m, k>> payload unit k of member m, <<m, 0>> its trailer *)
 RECURSIVE Layout(_, _)
 Layout(ms, m) == IF ms = <<>> THEN <<>>
@@ -15,18 +23,25 @@ ivars == <<file, cut, bad, rd, decoded, inMember, ipc, spin>>
 IInit == /\ file = Layout(Members, 1)
          /\ cut \in 0..Len(Layout(Members, 1)) /\ bad \in 0..Len(Layout(Members, 1))
          /\ rd = 0 /\ decoded = <<>> /\ inMember = FALSE /\ ipc = "run" /\ spin = 0
+
+(* the refill loop from position r with n units buffered: <<r', buffered units, inMember', outcome>>, outcome "ok" | "error" | "spin" *)
+RECURSIVE Refill(_, _, _)
+Refill(r, got, inm) ==
+  IF Len(got) >= Cap THEN <<r, got, inm, "ok">>
+  ELSE IF r >= cut THEN <<r, got, inm, IF inm /\ ~EofMidMemberAccepted THEN "error" ELSE "ok">>          \* input exhausted (FLUSH_FULL round)
+  ELSE IF r + 1 = bad THEN <<r, got, inm, IF DataErrorIgnored THEN "spin" ELSE "error">>
+  ELSE LET u == file[r + 1] IN
+       IF u[2] = 0 THEN (IF RefillStopsAtMemberEnd THEN <<r + 1, got, FALSE, "ok">> ELSE Refill(r + 1, got, FALSE))
+       ELSE Refill(r + 1, Append(got, u), TRUE)
+
 IStep ==
   /\ ipc = "run"
-  /\ IF rd >= cut
-     THEN ipc' = (IF inMember /\ ~EofMidMemberAccepted THEN "error" ELSE "eof") /\ UNCHANGED <<rd, decoded, inMember, spin>>
-     ELSE IF rd + 1 = bad
-     THEN (IF DataErrorIgnored THEN spin' = Min(spin + 1, 3) /\ UNCHANGED <<ipc, rd, decoded, inMember>>   \* no progress, no error
-           ELSE ipc' = "error" /\ UNCHANGED <<rd, decoded, inMember, spin>>)
-     ELSE LET u == file[rd + 1] IN
-          /\ rd' = rd + 1
-          /\ IF u[2] = 0 THEN inMember' = FALSE /\ UNCHANGED decoded
-             ELSE inMember' = TRUE /\ decoded' = Append(decoded, u)
-          /\ UNCHANGED <<ipc, spin>>
+  /\ LET f == Refill(rd, <<>>, inMember) IN
+     /\ rd' = f[1] /\ inMember' = f[3]
+     /\ decoded' = decoded \o f[2]
+     /\ CASE f[4] = "error" -> ipc' = "error" /\ spin' = spin
+          [] f[4] = "spin" -> ipc' = ipc /\ spin' = Min(spin + 1, 3)
+          [] OTHER -> ipc' = (IF f[2] = <<>> THEN "eof" ELSE "run") /\ spin' = spin              \* nothing buffered after precache: end of file
   /\ UNCHANGED <<file, cut, bad>>
 INext == IStep \/ (ipc # "run" /\ UNCHANGED ivars)
 ISpec == IInit /\ [][INext]_ivars
